@@ -224,6 +224,11 @@ def c16_scenarios(tier):
     # invoked as -f <abs config> from an unrelated directory
     for n in ([2, 5, 24] if tier == "quick" else [2, 3, 5, 13, 24, 48]):
         out.append(("c16", {"n": n, "pos": "middle", "ncmd": 1, "foreign": True}, {}))
+    # the first members finish at once (successfully) while the group is still being started
+    for n in ([8, 24, 48] if tier == "quick" else [4, 8, 13, 24, 48, 65]):
+        for k in (1, 3):
+            out.append(("c16", {"n": n, "pos": "middle", "ncmd": 1, "early": k}, {}))
+            out.append(("c16", {"n": n, "pos": "only", "ncmd": 1, "early": k}, {}))
     # one member (first / middle / last but one) takes arguments from an argmap file
     for n in ([2, 5, 24] if tier == "quick" else [2, 3, 5, 13, 24, 48]):
         for k in sorted({0, n // 2, max(0, n - 2)}):
@@ -350,8 +355,23 @@ def c16_task(desc):
                     want = {(cmd, t) for t in g if t not in undef_names}
                     # nobody is released until the whole group has arrived (each member "waits
                     # until all the others have started")
-                    ok = c.wait(lambda: {sched.pair_of(r, ch) for ch in c.waiting()} >= want or p.done(), 10)
-                    have = {sched.pair_of(r, ch) for ch in c.waiting()}
+                    early_done = set()
+                    if desc.get("early") and len(g) > 1:
+                        # the first members of the group (in the order monorail lists them) finish at once,
+                        # successfully, while the others are still being started; the rest rendezvous
+                        early_names = set(list(g)[:desc["early"]])
+
+                        def cond():
+                            for ch in list(c.waiting()):
+                                pr = sched.pair_of(r, ch)
+                                if pr[1] in early_names and pr[0] == cmd:
+                                    c.release(ch, 0)
+                                    early_done.add(pr)
+                            return ({sched.pair_of(r, ch) for ch in c.waiting()} | early_done) >= want or p.done()
+                        ok = c.wait(cond, 10)
+                    else:
+                        ok = c.wait(lambda: {sched.pair_of(r, ch) for ch in c.waiting()} >= want or p.done(), 10)
+                    have = {sched.pair_of(r, ch) for ch in c.waiting()} | early_done
                     if not (have >= want):
                         missing = sorted(want - have)
                         if p.done():
